@@ -179,6 +179,18 @@ reg("C10", "exploration",
     "property-based testing (Hypothesis) over operation sequences with differential oracle (joint vs stand-alone)",
     "DESIGN.md section 4 C10")
 
+reg("C11", "exploration",
+    "Every Hypothesis-generated scenario is run as generated and after a transform of genome, annotation and "
+    "alignments: translation by k bases (every output file must equal the original with k added to every coordinate, "
+    "including event payloads) or reverse complement (per read: type, isoform set, mirrored exons, flipped strand and "
+    "left/right-swapped event names; reference-based tables; exon/intron tables; for noise-free inputs with "
+    "well-separated junctions the mirrored set of transcript models with counts).",
+    "Reads whose tail lies within 2 bp of a tail-distance threshold are compared separately (known finding: polyT "
+    "position convention, pinned by the repository's tests); inherent ties (both terminal blocks shorter than the "
+    "fake-exon bound) and near-identical junctions are UNSPECIFIED; five repaired defects listed as fixed.",
+    "property-based testing (Hypothesis) with metamorphic relations (translation, reflection)",
+    "DESIGN.md section 4 C11")
+
 NOT_YET = "check not built yet in this session (see DESIGN.md section 6a build order)"
 
 
